@@ -170,6 +170,7 @@ import BGV
 #print axioms BGV.C11_entry_all
 #print axioms BGV.C11_findGeodesics
 #print axioms BGV.C11_findAllGeodesics
+#print axioms BGV.C11_findGeodesicsFromVertex
 
 -- C12
 #print axioms BGV.C12_dijkstra_correct
